@@ -196,6 +196,23 @@ def r21_scale_rounding(ctx):
     rets = [n for n in fmin.own_nodes() if isinstance(n, ast.Return)] if fmin else []
     ctx.check(len(rets) == 1 and unparse(rets[0].value) == 'min(vals)', R, fmin.node if fmin else fx.node, fmin or fx.qualname,
               'Fixed.min is the minimum under the class ordering', 'return min(vals)', 'Fixed.min changed', nontrivial=False)
+    # integer arithmetic IS fixed arithmetic with zero places: initialize() forces precision=0 when arithmetic == 'integer'
+    # (a precision given elsewhere - [droop precision=4] in the file - must not turn `integer` into a 4-place count)
+    init = fx.methods.get('initialize')
+    need(init is not None, 'Fixed.initialize missing')
+    ibr = [n for n in init.own_nodes() if isinstance(n, ast.If) and isinstance(n.test, ast.Compare) and len(n.test.ops) == 1
+           and isinstance(n.test.ops[0], ast.Eq) and const_str(n.test.comparators[0]) == 'integer']
+    okf = False
+    for br in ibr:
+        for c in [x for st in br.body for x in ast.walk(st) if isinstance(x, ast.Call)]:
+            if isinstance(c.func, ast.Attribute) and c.func.attr == 'setopt' and c.args and const_str(c.args[0]) == 'precision':
+                d = [k.value for k in c.keywords if k.arg == 'default'] or list(c.args[1:2])
+                fo = [k.value for k in c.keywords if k.arg == 'force']
+                okf = bool(d) and isinstance(d[0], ast.Constant) and d[0].value == 0 and bool(fo) and isinstance(fo[0], ast.Constant) and fo[0].value is True
+    ctx.check(okf, R, ibr[0] if ibr else init.node, init, 'integer arithmetic is fixed-point arithmetic with zero places, whatever precision is supplied',
+              "under arithmetic == 'integer': options.setopt('precision', default=0, force=True)",
+              "Fixed.initialize does not force precision=0 for arithmetic=integer: a precision from the ballot file or the command line makes "
+              "`integer` a fractional arithmetic")
     ctx.floor(R, 'arithmetic methods interpreted', nmeth, 26)
     ctx._value_summaries = summaries
     return summaries
@@ -587,6 +604,40 @@ def r24_guard0_equivalence(ctx):
                                   '`%s` in the `%s` branch of %s.options() does more than supply a default: the same explicit options give different '
                                   'counts under fixed and under guarded with guard=0' % (stmt_text(st), unparse(node.test), ri.short), nontrivial=False)
     ctx.floor(R, 'arithmetic-dependent option defaults', nb, 7)
+    # (count level) what a rule does may depend on the arithmetic only through V.exact, and V.exact only decides the quota form and
+    # the election comparison (R13) or whether progress is printed.  Anything else - V.quasi_exact, V.name, the flag kept in a
+    # local that steers the count - makes guarded (quasi-exact) and rational counts differ in more than rounding noise.
+    from .common import all_funcs_of as _afo
+    ne = 0
+    for ri in _rules(ctx):
+        roles = [ri.helper(ctx, 'calcQuota'), ri.helper(ctx, 'hasQuota')]
+        for g in _afo(ri.count):
+            for a in g.own_nodes():
+                if not (isinstance(a, ast.Attribute) and isinstance(a.ctx, ast.Load) and a.attr in ('exact', 'quasi_exact', 'name', '__name__')
+                        and ctx.canon(a.value, g) == 'E.V'):
+                    continue
+                ne += 1
+                st = ctx.repo.enclosing_stmt(a)
+                what = 'a rule consults the arithmetic only through V.exact, and only for the quota form, the election test or progress output'
+                if a.attr != 'exact':
+                    ok = isinstance(st, ast.Assert)
+                    ctx.check(ok, R, a, g, what, 'inside an assert', '`%s` read in %s: the count is steered by which arithmetic class is in use '
+                              '(guarded and rational must take the same path)' % (unparse(a), g.qualname), nontrivial=False)
+                    continue
+                ok = False
+                how = ''
+                if g in roles:
+                    ok, how = True, 'inside the quota / election-test helper %s() (R13 decides its form)' % g.name
+                elif isinstance(st, ast.If) and any(x is a for x in ast.walk(st.test)):
+                    body = st.body + st.orelse
+                    if all(isinstance(b_, ast.Expr) and isinstance(b_.value, ast.Call) and ctx.canon(b_.value.func, g) == 'E.prog' for b_ in body):
+                        ok, how = True, 'gates progress output only'
+                    elif isinstance(unparse(st.test), str) and all(isinstance(b_, (ast.Assign, ast.Return)) and (
+                            ctx.canon(b_.targets[0], g) == 'E.quota' if isinstance(b_, ast.Assign) else True) for b_ in body):
+                        ok, how = True, 'chooses the quota form (R13 decides it)'
+                ctx.check(ok, R, a, g, what, how, '`%s` in `%s` steers more than the quota form / election test / progress output: a guarded '
+                          '(quasi-exact) count and a rational one take different paths' % (unparse(a), stmt_text(st)), nontrivial=False)
+    ctx.floor(R, 'exactness reads in rules', ne, 6)
 
 
 # ---------------------------------------------------------------------------
